@@ -132,9 +132,22 @@ pub fn define(
                 }
             };
 
-            // FIXME: Multiplication can overflow
-            let size = addr_size
-                .map(|s| s * addr_unit);
+            let size = match addr_size
+            {
+                None => None,
+                Some(s) => match s.checked_mul(addr_unit)
+                {
+                    Some(size) => Some(size),
+                    None =>
+                    {
+                        report.error_span(
+                            "value is out of supported range",
+                            node.header_span);
+
+                        return Err(());
+                    }
+                }
+            };
             
             let output_offset = match &node.output_offset
             {
